@@ -4,7 +4,7 @@
 //!   reqresp --scenarios <jsonl> --out <ndjson> [--conc 96] [--workers 8] [--retries 2]
 //!
 //! Many small networks run concurrently in one process.  A scheduler-lag canary measures how
-//! late timers fire; a network during whose life the lag exceeded a quarter of its time bound is
+//! late timers fire; a network during whose life the lag exceeded an eighth of its time bound is
 //! discarded and re-run (never judged).
 mod exec;
 mod net;
